@@ -17,7 +17,8 @@ answer: `ok steps=… skips=… queue=… tasks=… finished=… waiting=… los
         (protocol: the goroutine of `ev` is in a control state in which it can never do `ev`;
          order: no interleaving exists; budget: the search budget ran out — inconclusive)
 `lost` counts tasks registered on a settled promise whose mutex is free (must be 0);
-`busy` lists the goroutines that are not idle in the final state (blocked ones after a hang). -/
+`busy` lists the goroutines that are not idle in the final state (blocked ones after a hang); a
+goroutine waiting for a promise mutex is followed by `@<holder>`. -/
 namespace Driver.Dom.Promise
 open Elk.Promise Driver
 
@@ -174,8 +175,11 @@ def summary (s : Sys) (acts ids : List Nat) : String :=
   let waiting := tasks.filter fun t => match s.loc t with | .waiting _ => true | _ => false
   let lost := ids.filter fun p => (s.prom p).settled.isSome && (s.prom p).locked.isNone && !(s.prom p).conts.isEmpty
   let busy := acts.filter fun a => s.act a != .idle
+  let holder := fun (a : Nat) => match s.act a with
+    | .awLock _ p | .resLock _ p _ => match (s.prom p).locked with | some h => s!"@{h}" | none => "@free"
+    | _ => ""
   s!"queue={s.queue.length} tasks={tasks.length} finished={fin.length} waiting={waiting.length} lost={lost.length} busy=" ++
-    joinWith "," (busy.map fun a => s!"{a}:{showAState (s.act a)}")
+    joinWith "," (busy.map fun a => s!"{a}:{showAState (s.act a)}{holder a}")
 
 def handle : List String → String
   | ["trace", n, q, evs] =>
